@@ -11,6 +11,9 @@ import s3transfer.bandwidth as _B
 
 _CO_BUCKET = _co.make_co(_B.LeakyBucket, ['consume'], _B)
 
+# private-attribute groups (vlib/layout.py) the obligations of this module depend on
+LAYOUT = ['bw', 'manager', 'coord']
+
 EXPLANATION = (
     'C13: (1) integer accounting of the real BandwidthLimitedStream against a stub bucket (symbolic read amounts, '
     'threshold, enabled/disabled phases, refusals): every byte requested while enabled is charged exactly once, '
